@@ -1,3 +1,5 @@
 SPECIFICATION TSpec
 INVARIANT NotAccepted
+VIEW TView
+ALIAS TAlias
 CHECK_DEADLOCK FALSE
